@@ -43,6 +43,11 @@ NUM = ["a", "u", "b", "d"]
 tmpl("red_sum", lambda x, c: x[NUM].sum(**kw(c, "split_every")), lambda p: p[NUM].sum(), ordered=True)
 tmpl("red_mean_s", lambda x, c: x["b"].mean(**kw(c, "split_every")), lambda p: p["b"].mean())
 tmpl("red_var", lambda x, c: x[NUM].var(**kw(c, "split_every")), lambda p: p[NUM].var(), ordered=True)
+# partitions that contribute NO valid value (emptied by a selective filter / a column that is all-null in a chunk): the combine steps of a
+# deeper tree must ignore them like the final aggregate does
+tmpl("red_var_sparse", lambda x, c: x[x["a"] > 4][NUM].var(**kw(c, "split_every")), lambda p: p[p["a"] > 4][NUM].var(), ordered=True)
+tmpl("red_std_sparse_s", lambda x, c: x[x["u"] > 17]["b"].std(**kw(c, "split_every")), lambda p: p[p["u"] > 17]["b"].std())
+tmpl("red_mean_sparse", lambda x, c: x[x["a"] > 4][NUM].mean(**kw(c, "split_every")), lambda p: p[p["a"] > 4][NUM].mean(), ordered=True)
 tmpl("red_count_filter", lambda x, c: x[x["a"] > 2]["u"].count(**kw(c, "split_every")), lambda p: p[p["a"] > 2]["u"].count())
 tmpl("red_nunique", lambda x, c: x["a"].nunique(**kw(c, "split_every")), lambda p: p["a"].nunique())
 tmpl("red_max_str", lambda x, c: x["c"].max(**kw(c, "split_every")), lambda p: p["c"].max())
@@ -215,7 +220,7 @@ def run(ctx):
     quick = ctx.tier == "quick"
     cases = []
     ns = [1, 2, 3, 5, 9, 12] if quick else list(range(1, 13))
-    for t in ("red_sum", "red_mean_s", "red_var", "red_count_filter", "red_nunique", "nunique_keepna", "red_max_str", "nlargest", "gb_median"):
+    for t in ("red_sum", "red_mean_s", "red_var", "red_var_sparse", "red_std_sparse_s", "red_mean_sparse", "red_count_filter", "red_nunique", "nunique_keepna", "red_max_str", "nlargest", "gb_median"):
         for n in (range(1, 13)):
             for se in (U, False, 2, 3, 4, 8):
                 cases.append({"t": t, "n": n, "split_every": se, "fuse": n % 2 == 0})
